@@ -165,7 +165,6 @@ Definition wf_comp (E : env) (c : acomp) : Prop :=
   end.
 Definition wf_lconfig (E : env) (lc : lconfig) : Prop :=
   Forall (fun a => wf_comp E (a_comp a)) (lc_appenders lc) /\
-  Forall (fun l => l < 6) (lc_root_level lc :: map llevel (lc_loggers lc)) /\
   match lc_refresh lc with Some (txt, d) => e_dur E txt = Some d | None => True end.
 
 (* ================= reader lemmas ================= *)
@@ -441,9 +440,9 @@ Proof.
     + cbn [appenders_lossy]. rewrite Hrun. cbn [bind]. rewrite Hl. reflexivity.
 Qed.
 
-Lemma rt_logger l kv : llevel l < 6 -> renders_logger l kv -> parse_logger kv = Ok l.
+Lemma rt_logger l kv : renders_logger l kv -> parse_logger kv = Ok l.
 Proof.
-  intros _ [Hn [m [Hm [Hs [Hl [Ha Hd]]]]]]. unfold parse_logger. rewrite Hm.
+  intros [Hn [m [Hm [Hs [Hl [Ha Hd]]]]]]. unfold parse_logger. rewrite Hm.
   rewrite (sec_only0 _ _ Hs). cbn [guard bind].
   rewrite (rd_level _ _ _ Hl). cbn [bind]. rewrite (rd_strs _ _ _ Ha). cbn [bind].
   rewrite (rd_def_bool _ _ (ladditive l) true (ladditive l)) by (try exact Hd; now destruct (ladditive l)).
@@ -451,10 +450,10 @@ Proof.
 Qed.
 
 Lemma rt_loggers ls nm :
-  Forall (fun l => llevel l < 6) ls -> Forall2 renders_logger ls nm -> all_res parse_logger nm = Ok ls.
+  Forall2 renders_logger ls nm -> all_res parse_logger nm = Ok ls.
 Proof.
-  intros W H. induction H as [|l kv ls nm Hl _ IH]; [reflexivity|].
-  inversion W; subst. cbn. rewrite (rt_logger _ _ H1 Hl). cbn. now rewrite IH.
+  intros H. induction H as [|l kv ls nm Hl _ IH]; [reflexivity|].
+  cbn. rewrite (rt_logger _ _ Hl). cbn. now rewrite IH.
 Qed.
 
 (* ================= the document ================= *)
@@ -472,7 +471,7 @@ Theorem render_interp_roundtrip E lc doc :
      | None => Err
      end.
 Proof.
-  intros [Wa [Wl Wr]] [Hs [Hrf [Hroot [Happ Hlog]]]].
+  intros [Wa Wr] [Hs [Hrf [Hroot [Happ Hlog]]]].
   assert (Hraw : exists raws,
     interp_raw E (DMap doc) =
       Ok {| rw_refresh := option_map snd (lc_refresh lc); rw_root_level := lc_root_level lc;
@@ -495,8 +494,7 @@ Proof.
     assert (Hr4 : parse_named parse_logger (get k_loggers doc) = Ok (lc_loggers lc)).
     { destruct Hlog as [[He H]|[nm [H [_ Hall]]]]; rewrite H.
       - now rewrite He.
-      - cbn. apply rt_loggers; [|exact Hall]. inversion Wl; subst.
-        rewrite Forall_map in H3. exact H3. }
+      - cbn. now apply rt_loggers. }
     destruct Hr3 as [raws [Hr3 Hl]]. exists raws. split; [|exact Hl].
     cbn -[parse_refresh parse_root parse_named]. rewrite (sec_only0 _ _ Hs). cbn [guard bind].
     rewrite Hr1. cbn [bind]. rewrite Hr2. cbn [bind]. rewrite Hr3. cbn [bind]. rewrite Hr4. reflexivity. }
